@@ -323,7 +323,9 @@ def gen_demux(rng, nhist, server=False):
         pool = [new_meta(rng) for _ in range(3)]
         pool.append((pool[0][0].upper(), pool[0][1].upper()))   # same bytes, different text
         outsider = new_meta(rng)
-        ids = ["a1", "b2", "c3", "d4", "e5"]
+        # attempt ids are opaque strings (the real caller passes the rendezvous nonce text): spellings that differ only in
+        # letter case are different attempts, and a removal must hit exactly the spelling that was registered
+        ids = ["a1", "A1", "b2", "C3", "Dd", "dD", respell(rng, pool[1][0], "upper"), respell(rng, pool[2][0], "mixed")]
         reg = {}
         ever = []
         ops = []
@@ -369,6 +371,126 @@ def gen_demux(rng, nhist, server=False):
     return cases
 
 
+def respell(rng, text, how=None):
+    """the same hex text in another letter case (hex.DecodeString accepts both; a Go map key does not fold)"""
+    how = how or rng.choice(["lower", "upper", "mixed"])
+    if how == "lower":
+        return text.lower()
+    if how == "upper":
+        return text.upper()
+    out = "".join(ch.upper() if rng.random() < 0.5 else ch.lower() for ch in text)
+    if out == out.lower():                       # make sure at least one letter is upper-case when there is one
+        for i, ch in enumerate(out):
+            if ch.isalpha():
+                return out[:i] + ch.upper() + out[i + 1:]
+    return out
+
+
+def marker(rng, k):
+    return b"marker-%d-" % k + rnd(rng, rng.choice([0, 3, 30]))
+
+
+def gen_respond(rng, nhist):
+    """ServerPuncher.Respond from registration to return, under attempt ids in every spelling, followed by late /
+    retransmitted punch packets of the finished attempt + a marker (must reach the reader byte-identical, in order) and by
+    re-registration of the same id (must succeed)."""
+    cases = []
+    for _ in range(nhist):
+        pg = PktGen(rng)
+        base = [new_meta(rng) for _ in range(3)]
+        # the rendezvous server's spelling of nonce and key
+        pool = [(respell(rng, n), respell(rng, k)) for n, k in base]
+        if all(n == n.lower() for n, _ in pool):
+            pool[0] = (respell(rng, pool[0][0], rng.choice(["upper", "mixed"])), pool[0][1])
+        outsider = new_meta(rng)
+        ops = []
+        addids = []          # ids registered through add (their channels are drained at the end)
+        reg = {}             # generator's view: id -> meta (exact string)
+
+        def pkt(data, kind):
+            return {"err": False, "hex": data.hex(), "addr": gen_addr(rng, pg.next_port(), "v4"), "kind": kind, "sx": False}
+
+        def noise(k):
+            cands = list(reg.values()) + [outsider]
+            return [pg.make(cands, "v4" if rng.random() < 0.7 else None) for _ in range(k)]
+
+        # other attempts in progress
+        for j in range(rng.choice([0, 1, 1, 2])):
+            m = pool[2 - j]
+            i = rng.choice([m[0], respell(rng, m[0]), "Attempt-%d" % j, "aB"])
+            ops.append({"op": "add", "id": i, "nonce": m[0], "obfs": m[1]})
+            if i not in reg:
+                reg[i] = m
+                addids.append(i)
+        mk = 0
+        prev = None
+        for rnd_i in range(rng.randint(1, 3)):
+            m = pool[0] if rng.random() < 0.7 else pool[1]
+            if any(v == m for v in reg.values()):
+                m = pool[0] if not any(v == pool[0] for v in reg.values()) else m
+            # app/cmd/server.go: Respond(ctx, ev.Nonce, ..., ev.PunchMetadata, ...): the id is the nonce text
+            i = m[0] if rng.random() < 0.85 else rng.choice(["Ab", "RESPOND-%d" % rnd_i, respell(rng, m[0])])
+            if prev is not None and rng.random() < 0.5:
+                i, m = prev                                   # the same id again after it has finished
+            if i in reg:
+                continue
+            ops.append({"op": "rstart", "id": i, "nonce": m[0], "obfs": m[1], "tick": rng.choice([0, 0, 1, 3])})
+            reg[i] = m
+            r = rng.random()
+            if r < 0.3:       # the same spelling while in flight: duplicate
+                ops.append({"op": "add", "id": i, "nonce": m[0], "obfs": m[1]})
+            elif r < 0.5:     # another spelling of the id: a different attempt (own metadata, so no ambiguity)
+                j = respell(rng, i, "lower") if i != i.lower() else respell(rng, i, "upper")
+                if j != i and j not in reg:
+                    m2 = pool[1] if m != pool[1] else pool[0]
+                    if not any(v == m2 for v in reg.values()):
+                        ops.append({"op": "add", "id": j, "nonce": m2[0], "obfs": m2[1]})
+                        reg[j] = m2
+                        addids.append(j)
+            finish = rng.random() < 0.75
+            batch = noise(rng.randint(0, 3))
+            if finish:
+                batch.append(pkt(pg.punch(m, ty=rng.choice([1, 1, 2])), "punch-finishing"))
+                # what follows in the same read loop already belongs to a finished attempt
+                for _ in range(rng.randint(0, 2)):
+                    batch.append(pkt(pg.punch(m, ty=1), "punch-late"))
+                mk += 1
+                batch.append(pkt(marker(rng, mk), "marker"))
+                batch += noise(rng.randint(0, 2))
+            ops.append({"op": "pkts", "pkts": batch})
+            ops.append({"op": "rend", "end": rng.choice(["timeout", "timeout", "cancel"])})
+            reg.pop(i, None)
+            # late / retransmitted packets of the finished attempt, then a marker
+            late = noise(rng.randint(0, 2))
+            for _ in range(rng.randint(1, 3)):
+                late.append(pkt(pg.punch(m, ty=rng.choice([1, 1, 2])), "punch-late"))
+                if rng.random() < 0.4:
+                    late += noise(1)
+            mk += 1
+            late.append(pkt(marker(rng, mk), "marker"))
+            ops.append({"op": "pkts", "pkts": late})
+            # the id is free again
+            r = rng.random()
+            if r < 0.45:
+                ops.append({"op": "add", "id": i, "nonce": m[0], "obfs": m[1]})
+                reg[i] = m
+                if i not in addids:
+                    addids.append(i)
+                again = noise(rng.randint(0, 2)) + [pkt(pg.punch(m), "punch")]
+                mk += 1
+                again.append(pkt(marker(rng, mk), "marker"))
+                ops.append({"op": "pkts", "pkts": again})
+                if rng.random() < 0.7:
+                    ops.append({"op": "rm", "id": i})
+                    reg.pop(i, None)
+                    ops.append({"op": "pkts", "pkts": [pkt(pg.punch(m), "punch-late"), pkt(marker(rng, mk), "marker")]})
+            prev = (i, m)
+        for i in addids:
+            ops.append({"op": "take", "id": i})
+        cases.append({"k": "server", "cap": rng.choice([0, 1, 4, 16]), "buf": 2048, "ops": ops})
+    return cases
+
+
 def gen_conc(rng, n):
     cases = []
     for _ in range(n):
@@ -397,6 +519,7 @@ def gen(rng, tier):
     cases = gen_codec(rng, scale)
     cases += gen_demux(rng, 90 * scale)
     cases += gen_demux(rng, 30 * scale, server=True)
+    cases += gen_respond(rng, 40 * scale)
     return cases
 
 
@@ -466,11 +589,19 @@ def to_coq(c, o):
                     ret = lst("(%d, (%d)%%Z, %s)" % (r["dg"], r["port"], "true" if r["err"] else "false") for r in oo["ret"])
                     ops.append("DPkts %s %s" % (ps, ret))
                 else:
-                    ops.append("SOpPkts %s %d%%nat" % (ps, oo["nret"]))
+                    ret = lst("(%d, (%d)%%Z, %s)" % (r["dg"], r["port"], "true" if r["err"] else "false") for r in oo["ret"])
+                    ops.append("SOpPkts %s %s" % (ps, ret))
             elif op["op"] == "drain":
                 ops.append("DDrain %s %s" % (lst(ev_term(e) for e in oo["evs"]), lst(str(x) for x in oo["stuns"])))
             elif op["op"] == "take":
                 ops.append("SOpTake %s %s" % (cstr(op["id"]), lst(ev_term(e) for e in oo["evs"])))
+            elif op["op"] == "rstart":
+                if "ok" not in oo:
+                    return None
+                ops.append("SOpRStart %s %s %s" % (cstr(op["id"]), meta_term(op["nonce"], op["obfs"]), "true" if oo["ok"] else "false"))
+            elif op["op"] == "rend":
+                ops.append("SOpREnd %s %s" % ("true" if oo["res"] == "noevent" else "false",
+                                              "(Some %s)" % ev_term(oo["ev"]) if oo["res"] == "ok" else "None"))
         return "%s (%d)%%Z %s" % ("CDemux" if k == "demux" else "CServer", c["cap"], lst(ops))
     return None
 
@@ -543,6 +674,79 @@ def py_verdict(c, o):
                 if got != exp:
                     return "python: op %d returned datagrams %s, reference expects %s" % (oi, got[:6], exp[:6])
         return None
+    if k == "server":
+        return py_server_verdict(c, o)
+    return None
+
+
+def py_server_verdict(c, o):
+    """ServerPuncher reference: both registries are one dict keyed by the exact id string; Respond = register, wait for the
+    first punch packet of the attempt, unregister the same string.  Where two registered attempts decode the same datagram
+    (shared metadata) the map order decides who gets the event: the reference then follows what the run reported."""
+    if "ops" not in o or len(o["ops"]) != len(c["ops"]):
+        return None
+    reg = {}
+    fl = None          # id of the Respond that is still waiting
+    flres = None       # output of its rend
+    for oi, (op, oo) in enumerate(zip(c["ops"], o["ops"])):
+        kind = op["op"]
+        if kind in ("add", "rstart"):
+            if "ok" not in oo:
+                return None
+            valid = op["id"] != "" and meta_ok(op["nonce"], op["obfs"]) is not None and op["id"] not in reg
+            if valid != oo["ok"]:
+                return "python: op %d %s(%r) accepted=%s, reference (registry keyed by the exact id string) expects %s" % (
+                    oi, "addAttempt" if kind == "add" else "Respond", op["id"], oo["ok"], valid)
+            if valid:
+                reg[op["id"]] = (op["nonce"], op["obfs"])
+                if kind == "rstart":
+                    fl = op["id"]
+                    flres = next((x for x in o["ops"][oi + 1:] if x["op"] == "rend"), None)
+        elif kind == "rm":
+            reg.pop(op["id"], None)
+            if fl == op["id"]:
+                fl = None
+        elif kind == "rend":
+            if fl is not None:
+                if oo.get("res") != "noevent":
+                    return "python: op %d Respond(%r) reports %s although no punch packet of its attempt was read" % (oi, fl, oo.get("res"))
+                reg.pop(fl, None)
+                fl = None
+            flres = None
+        elif kind == "pkts":
+            exp = []
+            for p, st in zip(op["pkts"], oo["stun"]):
+                data = bytes.fromhex(p["hex"])[:c["buf"]]
+                if p["err"]:
+                    exp.append((0, 0, True))
+                    continue
+                if st:
+                    if not py_stun_hdr_ok(data):
+                        return "python: op %d STUN oracle accepts a datagram without a binding-success header" % oi
+                    continue
+                hits = [i for i, (n, kk) in reg.items() if py_decode(data, n, kk)[0] == "ok"] if addr_ok(p["addr"]) else []
+                if not hits:
+                    exp.append((common.digest(data), p["addr"]["port"], False))
+                    continue
+                if fl in hits:
+                    took = (flres is not None and flres.get("res") == "ok" and flres["ev"]["port"] == p["addr"]["port"])
+                    if len(hits) == 1 and not took:
+                        return "python: op %d Respond(%r) did not return on the first punch packet of its attempt (source port %d)" % (
+                            oi, fl, p["addr"]["port"])
+                    if took:
+                        d = py_decode(data, *reg[fl])
+                        ev = flres["ev"]
+                        ip = p["addr"]["ip"]
+                        ip = ip[24:] if len(ip) == 32 and ip.startswith("00" * 10 + "ffff") else ip
+                        if (ev["ty"], ev["pad"]) != d[1:] or ev["ip"] != ip:
+                            return "python: op %d Respond(%r) result %s does not describe the datagram %s" % (oi, fl, ev, d)
+                        reg.pop(fl)          # the deferred removeAttempt of the same string
+                        fl = None
+            got = [(r["dg"], r["port"], r["err"]) for r in oo["ret"]]
+            if got != exp:
+                bad = next((i for i, (a, b) in enumerate(zip(got, exp)) if a != b), min(len(got), len(exp)))
+                return ("python: op %d: the reader received %d datagram(s), reference expects %d; first difference at return %d: got %s, expected %s "
+                        "(registered at that point: %s)" % (oi, len(got), len(exp), bad, got[bad:bad + 1], exp[bad:bad + 1], sorted(reg)))
     return None
 
 
@@ -562,10 +766,17 @@ def klass(c, o):
 def pkt_hist(cases, outs):
     h = {}
     for c, o in zip(cases, outs):
-        if c["k"] != "demux" or "ops" not in o:
+        if c["k"] not in ("demux", "server") or "ops" not in o or len(o["ops"]) != len(c["ops"]):
             continue
         for op, oo in zip(c["ops"], o["ops"]):
-            if op["op"] != "pkts":
+            if op["op"] in ("rstart", "rend", "add", "rm") and c["k"] == "server":
+                oid = op.get("id", "")
+                idc = ("lower" if oid == oid.lower() else "with-upper-case") + ("" if go_hex(oid) is not None and oid else "-nonhex")
+                key = "srv:%s:%s" % (op["op"], oo.get("res", oo.get("ok", idc if op["op"] == "rm" else "")))
+                if op["op"] in ("rstart", "add"):
+                    key += ":id-" + idc
+                h[key] = h.get(key, 0) + 1
+            if op["op"] != "pkts" or "ret" not in oo:
                 continue
             passed = {r["port"] for r in oo["ret"] if not r["err"]}
             for p, st in zip(op["pkts"], oo["stun"]):
@@ -581,7 +792,7 @@ def pkt_hist(cases, outs):
                 h[key] = h.get(key, 0) + 1
             h["op:pkts"] = h.get("op:pkts", 0) + 1
         for oo in o["ops"]:
-            if oo["op"] == "drain":
+            if oo["op"] == "drain" and "evs" in oo and "stuns" in oo:
                 h["ev:punch"] = h.get("ev:punch", 0) + len(oo["evs"])
                 h["ev:stun"] = h.get("ev:stun", 0) + len(oo["stuns"])
     return h
@@ -598,7 +809,7 @@ def nontrivial(c, o):
         npk = sum(len(op.get("pkts", [])) for op in c["ops"])
         return 0 < nret < npk
     if k == "server" and "ops" in o:
-        return any(oo.get("evs") for oo in o["ops"])
+        return any(oo.get("evs") or oo.get("res") == "ok" for oo in o["ops"])
     if k == "conc":
         return any(o.get("passed", [])) and any(o.get("evid", []))
     return False
